@@ -67,13 +67,16 @@ def one(ctx, kind, xs, t, family):
     conclusive = True
     start = 0
     ties = 0
+    # rounding of the normalised distance: each x carries eps*|x|, the running centroid accumulates it over the cluster (large offsets!)
+    cond = F(float(64 * n * np.finfo(float).eps * np.max(np.abs(x)) / L)) if L > 0 else F(0)
+    relm = F(1, 2 ** 30) + cond
     for i in range(1, n):
         q = exact_dist(kind, xq, Lq, start, i)
         fq = float_dist(kind, x, L, start, i)
         new = labels[i] != labels[i - 1]
         exact_rep = (F(fq) == q)
         margin = abs(q - tq)
-        near = margin <= F(1, 2 ** 30) * max(abs(q), abs(tq), 1)
+        near = margin <= relm * max(abs(q), abs(tq), 1)
         if q == tq:
             ties += 1
         if near and not exact_rep:
@@ -108,7 +111,7 @@ def one(ctx, kind, xs, t, family):
         s = ctx.rng.randrange(0, i)
         q = F(d.call('distQ', [kind, core.rats(x), str(s), str(i)])[0])
         fq = float_dist(kind, x, L, s, i)
-        if q != exact_dist(kind, xq, Lq, s, i) or abs(F(fq) - q) > F(1, 10 ** 9) * (abs(q) + 1):
+        if q != exact_dist(kind, xq, Lq, s, i) or abs(F(fq) - q) > (F(1, 10 ** 9) + cond) * (abs(q) + 1):
             ctx.fail('correspondence', 'linkage distance over Q vs float', site, case, dict(start=s, i=i, model=str(q), float=fq))
     ncl = labels[-1] + 1
     nontriv = (kind, tuple(xs), float(t)) if ncl >= 2 and ncl < n else None
@@ -155,6 +158,13 @@ def run(ctx):
     one(ctx, 'centroid', [4, 8, 12, 20, 22, 24, 26, 30, 33, 36, 39], 0.5, 'corpus')
     for _ in range(1500 if quick else 30000):
         xs, fam = gen_xs(rng)
+        u = rng.random()
+        if u < 0.06:
+            xs, fam = [v * 2.0 ** -40 for v in xs], fam + '@xtiny'      # total x range below 1e-8: distances are normalised by the range
+        elif u < 0.10:
+            xs, fam = [v + 2.0 ** 40 for v in xs], fam + '@xoff'
+        elif u < 0.14:
+            xs, fam = [v * 2.0 ** 30 for v in xs], fam + '@xhuge'
         kind = rng.choice(KINDS)
         t = pick_t(rng, kind, xs)
         labels = one(ctx, kind, xs, t, fam)
